@@ -27,6 +27,10 @@ ITEMS = ["good-map", "bad-map", "required-missing-map", "good-obj", "bad-obj", "
 REQ_FIELDS = ["str", "str-min0", "str-strip", "list", "list-typed", "list-cfg", "dict", "dict-typed", "bytes", "hostname", "url", "filename",
               "int", "secure", "any"]
 REQ_ROUTES = ["assign", "ctor", "load_tree", "loads-json", "default"]
+# how validators get registered: constructor argument, the @validator decorator on a field (one slot: the LAST registration is
+# the field's validator), the decorator / Schema.validator on a schema (all of them run)
+VREG = ["field-ctor", "field-decorator", "field-ctor-then-decorator", "field-decorator-twice", "schema-1", "schema-3", "schema-method",
+        "schema-and-field"]
 HOLDERS = ["root", "sub"]
 
 
@@ -45,6 +49,11 @@ def generate(rng, tier):
         for route in REQ_ROUTES:
             for place in ("root", "sub"):
                 cases.append({"fam": "reqempty", "field": fk, "route": route, "place": place, "src": "matrix"})
+    for reg in VREG:
+        for place in ("root", "sub", "item"):
+            for action in ("load_tree", "loads-json", "validate", "collect", "assign"):
+                for failing in (False, True):
+                    cases.append({"fam": "vreg", "reg": reg, "place": place, "action": action, "failing": failing, "src": "matrix"})
     for op in LISTOPS:
         for item in ITEMS:
             for holder in HOLDERS:
@@ -288,6 +297,106 @@ def _listops(c, out):
     return out
 
 
+def _vreg(c, out):
+    """every validator that is registered when the load / validation happens runs against the data and can refuse it"""
+    import cincoconfig as cc
+    from cincoconfig import ValidationError, validator
+    log = []
+    bad_value = 13 if c["failing"] else None
+
+    def mk(tag):
+        def fv(cfg, v):
+            log.append(tag)
+            if v == bad_value:
+                raise ValueError("%s refuses %r" % (tag, v))
+            return v
+        return fv
+
+    def mks(tag):
+        def sv(cfg):
+            log.append(tag)
+            if cfg._data.get("n") == bad_value:
+                raise ValueError("%s refuses the configuration" % tag)
+        return sv
+    item = cc.Schema()
+    s = cc.Schema()
+    s.title = cc.StringField(default="t")
+    s.rows = cc.ListField(item)
+    hs = {"root": s, "sub": s.sub, "item": item}[c["place"]]
+    if c["place"] == "sub":
+        s.sub.x = cc.IntField(default=2)
+    reg = c["reg"]
+    expect = []
+    if reg == "field-ctor":
+        hs.n = cc.IntField(default=1, validator=mk("ctor"))
+        expect = ["ctor"]
+    elif reg == "field-decorator":
+        hs.n = cc.IntField(default=1)
+        validator(hs.n)(mk("deco"))
+        expect = ["deco"]
+    elif reg == "field-ctor-then-decorator":
+        hs.n = cc.IntField(default=1, validator=mk("ctor"))
+        validator(hs.n)(mk("deco"))
+        expect = ["deco"]                       # the decorator registers the field's validator: the last registration counts
+    elif reg == "field-decorator-twice":
+        hs.n = cc.IntField(default=1)
+        validator(hs.n)(mk("deco1"))
+        validator(hs.n)(mk("deco2"))
+        expect = ["deco2"]
+    else:
+        hs.n = cc.IntField(default=1)
+        if reg == "schema-1":
+            validator(hs)(mks("s1"))
+            expect = ["s1"]
+        elif reg == "schema-3":
+            for t in ("s1", "s2", "s3"):
+                validator(hs)(mks(t))
+            expect = ["s1", "s2", "s3"]
+        elif reg == "schema-method":
+            hs.validator(mks("m1"))
+            validator(hs)(mks("s2"))
+            expect = ["m1", "s2"]
+        else:
+            validator(hs.n)(mk("deco"))
+            validator(hs)(mks("s1"))
+            expect = ["deco", "s1"]
+    cfg = s()
+    value = 13 if c["failing"] else 5
+    inner = {"n": value}
+    tree = {"root": inner, "sub": {"sub": inner}, "item": {"rows": [inner]}}[c["place"]]
+    if c["place"] == "item" and c["action"] in ("validate", "collect", "assign"):
+        cfg.rows = [{"n": 1}]
+    del log[:]
+    action = c["action"]
+    try:
+        if action == "load_tree":
+            cfg.load_tree(tree)
+        elif action == "loads-json":
+            cfg.loads(json.dumps(tree).encode(), format="json")
+        elif action in ("validate", "collect", "assign"):
+            tgt = {"root": cfg, "sub": cfg.sub, "item": cfg.rows[0] if c["place"] == "item" else None}[c["place"]]
+            if action == "assign":
+                tgt.n = value
+                out["result"] = "ok"
+            else:
+                tgt._data["n"] = value            # the state to be validated, whatever route produced it
+                del log[:]
+                if action == "validate":
+                    cfg.validate()
+                    out["result"] = "ok"
+                else:
+                    errs = cfg.validate(collect_errors=True)
+                    out["result"] = "errors" if errs else "ok"
+        out.setdefault("result", "ok")
+    except ValidationError:
+        out["result"] = "errors"
+    except Exception as e:  # noqa
+        out["result"] = "raised:" + type(e).__name__
+    out["log"] = list(log)
+    out["expect"] = expect
+    return out
+
+
 def _reqempty(c, out):
     import cincoconfig as cc
     from cincoconfig import ValidationError
@@ -364,6 +473,8 @@ def impl(c):
     try:
         if c["fam"] == "reqempty":
             return _reqempty(c, out)
+        if c["fam"] == "vreg":
+            return _vreg(c, out)
         if c["fam"] == "listops":
             return _listops(c, out)
         return _late(c, out) if c["fam"] == "late" else _deflist(c, out)
@@ -373,6 +484,25 @@ def impl(c):
 
 
 def oracle(c, obs):
+    if c["fam"] == "vreg":
+        what = "validators registered by %s at %s, %s of a value they %s" % (c["reg"], c["place"], c["action"], "refuse" if c["failing"] else "accept")
+        if "setup" in obs:
+            return ["%s: setup failed: %s" % (what, obs["setup"])]
+        bad = []
+        if obs["result"].startswith("raised:"):
+            return ["%s: failed with %s instead of a validation error" % (what, obs["result"][7:])]
+        field_level = [t for t in obs["expect"] if not t.startswith(("s", "m"))]
+        expected_now = field_level if c["action"] == "assign" else obs["expect"]        # an assignment runs the field's validator only
+        if c["failing"]:
+            if obs["result"] == "ok" and expected_now:
+                bad.append("%s: returned normally although a registered validator refuses the value (ran: %s)" % (what, obs["log"]))
+        else:
+            if obs["result"] != "ok":
+                bad.append("%s: failed although every validator accepts the value" % what)
+            missing = [t for t in expected_now if t not in obs["log"]]
+            if missing:
+                bad.append("%s: returned normally without running %s (ran: %s)" % (what, missing, obs["log"]))
+        return bad
     if c["fam"] == "reqempty":
         what = "required %s field at %s given its empty value by %s" % (c["field"], c["place"], c["route"])
         if "setup" in obs:
@@ -431,6 +561,8 @@ def oracle(c, obs):
 
 
 def tags(c, obs):
+    if c["fam"] == "vreg":
+        return {"fam:vreg", "reg:" + c["reg"], "action:" + c["action"], "result:" + str(obs.get("result"))}
     if c["fam"] == "reqempty":
         return {"fam:reqempty", "field:" + c["field"], "route:" + c["route"], "result:" + str(obs.get("result")), "validate:" + str(obs.get("validate"))}
     if c["fam"] == "listops":
